@@ -413,6 +413,15 @@ class Prov:
                 return v
         if callee_is_vp(c) and args:
             return ("vp", c["name"], args[0])
+        if c["key"] in ("std::option::Option::map", "std::result::Result::map") and len(args) == 2:
+            # `x.map(|v| e)` is `match x { Some(v) => Some(e), None => None }` (resp. Ok / Err)
+            cl = peel(args[1])
+            g = self.facts.fn(cl[1]) if cl[0] == "closure" else None
+            if g is not None:
+                r = self.ret(g)
+                if c["key"].startswith("std::option"):
+                    return multi([("agg", "std::option::Option::Some", (("0", r),)), ("agg", "std::option::Option::None", ())])
+                return multi([("agg", "std::result::Result::Ok", (("0", r),)), ("agg", "std::result::Result::Err", (("0", payload(args[0], "err")),))])
         if c["key"] == "<indirect>":
             return ("call", "<indirect>", (self.operand(fn, c["indirect"], site),) + args, None, (fn.key, bid))
         return ("call", c["key"], args, c.get("resolved"), (fn.key, bid))
@@ -675,6 +684,23 @@ def payload(o, role):
             return ("never",)      # the payload of the other variant: no value ever flows here
     if role == "ok" and k == "call" and o[1] == FROM_RESIDUAL:
         return ("never",)
+    if role == "ok" and k == "call" and o[1] in ("std::option::Option::ok_or_else", "std::option::Option::ok_or") and o[2]:
+        # `x.ok_or_else(f)?` is `match x { Some(v) => v, None => return Err(f()) }`
+        return payload(o[2][0], "some")
+    if role == "ok" and k == "call" and o[1] == "std::option::Option::transpose" and o[2]:
+        # Option<Result<T, E>> -> Result<Option<T>, E>
+        outs = []
+        for x in alts(o[2][0]):
+            x = peel(x)
+            if x[0] == "agg" and x[1].endswith("Option::Some") and x[2]:
+                outs.append(("agg", x[1], (("0", payload(x[2][0][1], "ok")),)))
+            elif x[0] == "agg" and x[1].endswith("Option::None"):
+                outs.append(x)
+            else:
+                outs = None
+                break
+        if outs:
+            return multi(outs)
     if role == "err" and k == "call" and o[1] == FROM_RESIDUAL and o[2] and peel(o[2][0])[0] == "err":
         # the error of the Result that `?` builds from the error of X is (the conversion of) X's error
         return peel(o[2][0])
